@@ -108,6 +108,15 @@ M = {
   ('class start: skip before second member', 'sourcer/translator.py', "first_rule = start_rule.members[0] if start_rule.members else None", "first_rule = start_rule.members[-1] if start_rule.members else None"),
   ('only first ignore rule used', 'sourcer/translator.py', "        refs = [Ref(x.name) for x in ignored]\n", "        refs = [Ref(x.name) for x in ignored[:1]]\n"),
  ],
+ 'C08': [
+  ('class entry ignores fullparse', 'sourcer/expressions/class_.py', "                out.RETURN(Code(f'_run({ctx}text, pos, {parse_func}, fullparse)'))", "                out.RETURN(Code(f'_run({ctx}text, pos, {parse_func}, True)'))"),
+  ('falsy partial result -> ParseError', 'sourcer/translator.py', "    if fullparse and pos < len(text):\n        line, col", "    if fullparse and pos < len(text) and not nodes:\n        raise ParseError('Incomplete parse.', pos, None, None)\n\n    if fullparse and pos < len(text):\n        line, col"),
+  ('revert F14', 'sourcer/expressions/class_.py', "                    f'lambda text, pos=0, fullparse=True:'", "                    f'lambda {ctx}text, pos=0, fullparse=True:'"),
+  ('revert F15', 'sourcer/translator.py', "    line_numbers.append(current_line)\n    column_numbers.append(current_column + 1)\n", ""),
+  ('partial index is start pos', 'sourcer/translator.py', "        position = _Position(pos, line, col)\n        excerpt", "        position = _Position(pos if nodes else 0, line, col)\n        excerpt"),
+  ('rule entry ignores pos', 'sourcer/expressions/rule.py', "                out.RETURN(Code(f'_run({ctx}text, pos, {impl_name}, fullparse)'))", "                out.RETURN(Code(f'_run({ctx}text, pos if fullparse else 0, {impl_name}, fullparse)'))"),
+  ('fullparse compares <=', 'sourcer/translator.py', "    if fullparse and pos < len(text):\n        line, col", "    if fullparse and pos < len(text) - (1 if text[-1:] in ('\\n', b'\\n') else 0):\n        line, col"),
+ ],
  'C03': [
   ('sep drop pop', 'sourcer/expressions/sep.py', "                    with out.IF(staging):\n                        out += staging.pop()\n", "                    pass\n"),
   ('sep require_separator empty', 'sourcer/expressions/sep.py', "Code(f'not {staging} or {saw_separator}')", "Code(f'{saw_separator}')"),
